@@ -707,9 +707,13 @@ pub fn units(prop: &'static str, tier: Tier) -> Vec<Unit> {
     if matches!(prop, "C01" | "C02" | "C03" | "C04" | "C07") {
         let l = ls[0].clone();
         let sigma = alphabet(&isa, &l);
-        let victims: Vec<Sym> = sigma.into_iter().filter(|s| s.owners.contains(&prop) && matches!(s.what, What::Code(_))).collect();
+        // C07 ("exactly the instruction it encodes, exactly its encoded length consumed") also owns the extension words:
+        // every multi-word instance of the register / memory / ALU / bit forms, whose later words must be taken from
+        // behind the word at PC & !1 (C07-M10: a 32-bit immediate read at the raw odd PC)
+        let multiword = |s: &Sym| matches!(&s.what, What::Code(c) if c.len() > 2) && ["C01", "C02", "C03", "C04"].iter().any(|p| s.owners.contains(p));
+        let victims: Vec<Sym> = sigma.into_iter().filter(|s| matches!(s.what, What::Code(_)) && (s.owners.contains(&prop) || (prop == "C07" && multiword(s)))).collect();
         let nv = victims.len();
-        let dom = format!("{} instances of this property's forms executed with bit 0 of PC set (PC = code address + 1): either the step is rejected or it is the instruction at PC & !1 with exactly its reference effect (bit 0 of the new PC not compared)", nv);
+        let dom = format!("{} instances of this property's forms (C07: and of every multi-word MOV / arithmetic / logic / bit form) executed with bit 0 of PC set (PC = code address + 1): either the step is rejected or it is the instruction at PC & !1 with exactly its reference effect (bit 0 of the new PC not compared)", nv);
         units.push(Unit::new("xseq/odd-pc", 1, &dom, move |ctx, _| {
             ctx.odd_pc = true;
             for s in victims.iter() {
